@@ -7,8 +7,26 @@ Local Open Scope N_scope.
 Definition c05_valid (c : c05_case) : Prop :=
   match c with
   | KRing l revs _ _ => 0 < l /\ StronglySorted N.lt revs
-  | KRun _ l _ _ => 0 < l
+  | KRun _ l _ steps => 0 < l /\ forallb obs_has_got steps = true
+  | KSnap _ _ _ _ => True
   end.
+
+Lemma increasingb_sorted revs : increasingb revs = true -> StronglySorted N.lt revs.
+Proof.
+  intros H. apply Sorted_StronglySorted; [intros a b c; apply N.lt_trans|].
+  induction revs as [|a t IH]; [constructor|]. destruct t as [|b t']; [repeat constructor|].
+  cbn [increasingb] in H. apply andb_true_iff in H as [Hab Ht]. constructor; [apply IH; exact Ht|].
+  constructor. apply N.ltb_lt. exact Hab.
+Qed.
+
+(* validity is decidable: the evaluated predicate implies the hypothesis of the theorems *)
+Lemma c05_validb_valid c : c05_validb c = true -> c05_valid c.
+Proof.
+  destruct c as [l revs S obs|pa l c0 steps|S od nw evs]; cbn [c05_validb c05_valid]; intros H.
+  - apply andb_true_iff in H as [Hl Hs]. split; [apply N.ltb_lt; exact Hl|apply increasingb_sorted; exact Hs].
+  - apply andb_true_iff in H as [Hl Hg]. split; [apply N.ltb_lt; exact Hl|exact Hg].
+  - exact I.
+Qed.
 
 Lemma sorted_ring_evs revs : StronglySorted N.lt revs -> sorted (map ring_ev revs).
 Proof.
@@ -19,7 +37,7 @@ Qed.
 Theorem c05_oracle_sound_ring l revs S obs :
   c05_valid (KRing l revs S obs) -> c05_check (KRing l revs S obs) = true -> c05_oracle (KRing l revs S obs) = None.
 Proof.
-  intros [Hl Hs] Hc. cbn [c05_check c05_oracle] in *.
+  intros [Hl Hs] Hc. cbn [c05_check c05_oracle] in *. apply andb_true_iff in Hc as [_ Hc].
   destruct (ring_find_correct l (map ring_ev revs) S Hl (sorted_increasing _ (sorted_ring_evs revs Hs))) as [r [Hr Hf]].
   rewrite Hr in Hc. rewrite Hf in Hc.
   replace (0 <? l) with true by (symmetry; apply N.ltb_lt; exact Hl). rewrite Hc. reflexivity.
@@ -175,18 +193,24 @@ Proof.
   destruct (nth_error (s_ws s) (o_w o)) as [w|] eqn:Hn; [|reflexivity].
   destruct (o_got o) as [g0|]; [|reflexivity].
   apply andb_true_iff in Hok as [Hok Hq]. apply andb_true_iff in Hok as [Hok Hcl].
-  apply andb_true_iff in Hok as [Hok Hg]. apply andb_true_iff in Hok as [Hst _].
+  apply andb_true_iff in Hok as [Hok Hg]. apply andb_true_iff in Hok as [Hok _]. apply andb_true_iff in Hok as [Hok _].
+  apply andb_true_iff in Hok as [HS HP]. apply N.eqb_eq in HS. apply beqb_eq in HP. rewrite HS, HP.
   apply evs_eqb_true_eq in Hg. cbv zeta. rewrite Hg.
+  set (f := proj (o_wire o)).
+  assert (Hf : forall a b, is_prefix a b -> prefixb (f a) (f b) = true).
+  { intros a b [t ->]. apply is_prefix_prefixb. unfold f, proj. destruct (o_wire o); [rewrite map_app|]; apply is_prefix_app. }
+  assert (Hflen : forall a, length (f a) = length a).
+  { intros a. unfold f, proj. destruct (o_wire o); [apply map_length|reflexivity]. }
   pose proof (reachable_inv pa l c0 ls Hl) as G. pose proof (winv_of pa l c0 ls (o_w o) w Hl Hn) as W. fold s in G, W.
   assert (Hpre : is_prefix (s_cached s) (frev sg)) by (rewrite <- Hsg; apply is_prefix_app).
   assert (Hbase : (w_base w <= length (s_cached s))%nat).
   { pose proof (wi_base _ _ _ _ W). pose proof (ginv_hub_len _ _ G). lia. }
-  assert (Hprefix : prefixb (concat (w_got w)) (ideal (w_S w) (w_P w) (w_base w) (frev sg)) = true).
-  { destruct (accepted w) eqn:A.
-    - apply is_prefix_prefixb. eapply is_prefix_trans; [apply (prefix_full pa l c0 ls (o_w o) w Hl Hn A)|].
+  assert (Hprefix : prefixb (f (concat (w_got w))) (f (ideal (w_S w) (w_P w) (w_base w) (frev sg))) = true).
+  { apply Hf. destruct (accepted w) eqn:A.
+    - eapply is_prefix_trans; [apply (prefix_full pa l c0 ls (o_w o) w Hl Hn A)|].
       apply ideal_mono; assumption.
     - pose proof (idle_run pa l c0 ls) as Hi. unfold all_idle in Hi. rewrite Forall_forall in Hi.
-      destruct (Hi w (nth_error_In _ _ Hn) A) as [Hgot _]. unfold w_got. rewrite Hgot. reflexivity. }
+      destruct (Hi w (nth_error_In _ _ Hn) A) as [Hgot _]. unfold w_got. rewrite Hgot. exists (ideal (w_S w) (w_P w) (w_base w) (frev sg)). reflexivity. }
   rewrite Hprefix.
   destruct (o_quiet o); [|reflexivity].
   destruct (o_status o) as [st|]; [|reflexivity].
@@ -204,7 +228,7 @@ Proof.
   assert (Hset : settled s w) by (unfold settled; repeat split; assumption).
   rewrite (complete_settled pa l c0 ls (o_w o) w Hl Hn Hset).
   unfold cur_evs in Hsg. rewrite E1, app_nil_r in Hsg. fold s. rewrite Hsg.
-  unfold ok_if. rewrite Nat.eqb_refl. reflexivity.
+  unfold ok_if. rewrite !Hflen, Nat.eqb_refl. reflexivity.
 Qed.
 
 Lemma run_sound pa l c0 : 0 < l -> forall steps ls sg,
@@ -229,8 +253,132 @@ Qed.
 (* the oracle accepts every case on which model and implementation agree: ring, hub-alone and backend cases *)
 Theorem c05_oracle_sound c : c05_valid c -> c05_check c = true -> c05_oracle c = None.
 Proof.
-  destruct c as [l revs S obs|pa l c0 steps].
+  destruct c as [l revs S obs|pa l c0 steps|S od nw evs].
   - apply c05_oracle_sound_ring.
-  - cbn [c05_valid c05_check c05_oracle]. intros Hl Hc.
+  - cbn [c05_valid c05_check c05_oracle]. intros [Hl _] Hc. apply andb_true_iff in Hc as [_ Hc].
     apply (run_sound pa l c0 Hl (expand_steps steps) [] []); [reflexivity|exact Hc].
+  - cbn [c05_valid c05_check c05_oracle c05_validb andb]. intros _ Hc. rewrite Hc. reflexivity.
+Qed.
+
+Lemma list_eqb_refl_on l : list_eqb on_eqb l l = true.
+Proof.
+  induction l as [|x t IH]; [reflexivity|]. cbn [list_eqb]. rewrite IH, andb_true_r.
+  destruct x as [n|]; cbn; [apply N.eqb_refl|reflexivity].
+Qed.
+
+(* ------------------------------------------------------------------ the ring under a consecutive producer *)
+(* What the stress part of the driver compares the implementation with: on a ring fed with consecutive revisions an
+   (atomic) FindEvents(S) inside the window returns exactly the revisions S, S+1, ..., newest. *)
+
+Definition consecutive (a : N) (sigma : list event) : Prop := map e_rev sigma = nseq a (length sigma).
+
+Lemma nseq_length a n : length (nseq a n) = n.
+Proof. revert a; induction n as [|n IH]; intros a; cbn [nseq length]; [reflexivity|rewrite IH; reflexivity]. Qed.
+
+Lemma nseq_in a n x : In x (nseq a n) -> a <= x < a + N.of_nat n.
+Proof.
+  revert a; induction n as [|n IH]; intros a; cbn [nseq]; [intros []|].
+  intros [<-|H]; [lia|]. specialize (IH _ H). lia.
+Qed.
+
+Lemma nseq_nth a n i : (i < n)%nat -> nth i (nseq a n) 0 = a + N.of_nat i.
+Proof.
+  revert a i; induction n as [|n IH]; intros a [|i] H; cbn [nseq nth]; try lia. rewrite IH by lia. lia.
+Qed.
+
+Lemma skipn_nseq a n k : skipn k (nseq a n) = nseq (a + N.of_nat k) (n - k).
+Proof.
+  revert a n; induction k as [|k IH]; intros a n.
+  - cbn [skipn]. rewrite Nat.sub_0_r. f_equal. lia.
+  - destruct n as [|n]; [reflexivity|]. cbn [nseq skipn]. rewrite IH. cbn [Nat.sub]. f_equal. lia.
+Qed.
+
+Lemma map_skipn {A B} (f : A -> B) n l : map f (skipn n l) = skipn n (map f l).
+Proof. revert l; induction n as [|n IH]; intros [|h t]; cbn; auto. Qed.
+
+Lemma consecutive_increasing a sigma : consecutive a sigma -> increasing sigma.
+Proof.
+  intros H i j Hij Hj. unfold consecutive in H.
+  assert (Hn : forall k, (k < length sigma)%nat -> e_rev (nth k sigma ev0) = a + N.of_nat k).
+  { intros k Hk. rewrite <- (nseq_nth a (length sigma) k Hk), <- H.
+    change 0 with (e_rev ev0). rewrite map_nth. reflexivity. }
+  rewrite (Hn i), (Hn j) by lia. lia.
+Qed.
+
+(* keeping the elements >= S of b, b+1, ..., b+n-1 for b <= S <= b+n-1 gives S, ..., b+n-1 *)
+Lemma filter_consecutive w : forall b S,
+  map e_rev w = nseq b (length w) -> b <= S -> S < b + N.of_nat (length w) ->
+  map e_rev (filter (fun e => S <=? e_rev e) w) = nseq S (N.to_nat (b + N.of_nat (length w) - S)).
+Proof.
+  induction w as [|e t IH]; intros b S Hm Hb HS; [cbn [length] in HS; lia|].
+  cbn [map length nseq] in Hm. injection Hm as He Ht. cbn [filter]. cbn [length] in HS.
+  destruct (S <=? e_rev e) eqn:E.
+  - apply N.leb_le in E. assert (S = b) by lia. subst S.
+    rewrite filter_all_true.
+    + cbn [map length]. replace (N.to_nat (b + N.of_nat (S (length t)) - b)) with (S (length t)) by lia.
+      cbn [nseq]. rewrite He, Ht. reflexivity.
+    + intros x Hx. apply N.leb_le. assert (In (e_rev x) (nseq (b + 1) (length t))) by (rewrite <- Ht; apply in_map; exact Hx).
+      apply nseq_in in H. lia.
+  - apply N.leb_gt in E. cbn [length].
+    rewrite (IH (b + 1) S Ht) by lia. f_equal. lia.
+Qed.
+
+Theorem ring_consecutive l a sigma S r :
+  0 < l -> consecutive a sigma -> ring_of l sigma = Some r ->
+  match obs_of_find (find_events r S) with
+  | ROEvents nw od evs => snap_ok S od nw evs = true
+  | ROLow nw od => S < od
+  | ROHigh nw od => nw < S
+  | ROEmpty => sigma = []
+  | ROPanic => False
+  end.
+Proof.
+  intros Hl Hc Hr.
+  destruct (ring_of_inv l sigma Hl) as [r' [Hr' Hinv]]. rewrite Hr in Hr'. injection Hr' as <-.
+  rewrite (find_events_spec l sigma r S Hinv (consecutive_increasing a sigma Hc)).
+  destruct sigma as [|e0 t]; [reflexivity|].
+  remember (e0 :: t) as sigma eqn:Es.
+  assert (Hne : sigma <> []) by (subst; discriminate).
+  assert (Hlen : (0 < length sigma)%nat) by (subst; cbn [length]; lia).
+  rewrite find_spec_nonempty by (try exact Hne; lia). cbv zeta.
+  set (k := (length sigma - N.to_nat l)%nat).
+  assert (Hwin : map e_rev (lastn (N.to_nat l) sigma) = nseq (a + N.of_nat k) (length sigma - k)).
+  { unfold lastn. fold k. rewrite map_skipn, Hc, skipn_nseq. reflexivity. }
+  assert (Hwlen : length (lastn (N.to_nat l) sigma) = (length sigma - k)%nat).
+  { rewrite <- (map_length e_rev), Hwin. apply nseq_length. }
+  assert (Hnw : e_rev (last sigma ev0) = a + N.of_nat (length sigma) - 1).
+  { rewrite (last_nth' sigma ev0 ev0 Hne). change (e_rev (nth (length sigma - 1) sigma ev0)) with (e_rev (nth (length sigma - 1) sigma ev0)).
+    rewrite <- (map_nth e_rev). rewrite Hc. cbn [e_rev ev0]. rewrite nseq_nth by lia. lia. }
+  assert (Hod : e_rev (hd ev0 (lastn (N.to_nat l) sigma)) = a + N.of_nat k).
+  { unfold lastn. fold k. rewrite (hd_skipn sigma k ev0 ev0) by (unfold k; lia).
+    rewrite <- (map_nth e_rev). rewrite Hc. cbn [e_rev ev0]. rewrite nseq_nth by (unfold k; lia). reflexivity. }
+  destruct (e_rev (last sigma ev0) <? S) eqn:Ehigh; [cbn [obs_of_find]; apply N.ltb_lt; exact Ehigh|].
+  destruct (S <? e_rev (hd ev0 (lastn (N.to_nat l) sigma))) eqn:Elow; [cbn [obs_of_find]; apply N.ltb_lt; exact Elow|].
+  apply N.ltb_ge in Ehigh, Elow. cbn [obs_of_find]. unfold snap_ok.
+  rewrite Hod, Hnw in *.
+  replace (a + N.of_nat k <=? S) with true by (symmetry; apply N.leb_le; exact Elow).
+  replace (S <=? a + N.of_nat (length sigma) - 1) with true by (symmetry; apply N.leb_le; exact Ehigh). cbn [andb].
+  rewrite map_map. unfold snap_expect.
+  replace (map (fun x => option_map e_rev (Some x)) (filter (fun e => S <=? e_rev e) (lastn (N.to_nat l) sigma)))
+    with (map Some (map e_rev (filter (fun e => S <=? e_rev e) (lastn (N.to_nat l) sigma)))) by (rewrite map_map; reflexivity).
+  rewrite (filter_consecutive _ (a + N.of_nat k) S); [|rewrite Hwlen; exact Hwin|exact Elow|rewrite Hwlen; unfold k in *; lia].
+  rewrite Hwlen.
+  replace (N.to_nat (a + N.of_nat k + N.of_nat (length sigma - k) - S)) with (N.to_nat (a + N.of_nat (length sigma) - 1 + 1 - S)) by (unfold k; lia).
+  apply list_eqb_refl_on.
+Qed.
+
+(* the prefix property read through the etcd wire projection *)
+Theorem prefix_wire pa l c0 ls i w :
+  0 < l -> nth_error (s_ws (run pa ls (init l c0))) i = Some w -> accepted w = true ->
+  is_prefix (map wire_ev (concat (w_got w))) (map wire_ev (ideal (w_S w) (w_P w) (w_base w) (s_cached (run pa ls (init l c0))))).
+Proof.
+  intros Hl Hn Ha. destruct (prefix_full pa l c0 ls i w Hl Hn Ha) as [t Ht].
+  exists (map wire_ev t). rewrite Ht, map_app. reflexivity.
+Qed.
+
+(* every case that passes the check satisfies the property: the check evaluates validity itself *)
+Theorem c05_check_sound c : c05_check c = true -> c05_oracle c = None.
+Proof.
+  intros H. apply c05_oracle_sound; [|exact H]. apply c05_validb_valid.
+  unfold c05_check in H. apply andb_true_iff in H as [H _]. exact H.
 Qed.
